@@ -11,11 +11,17 @@ Header arguments (5 tokens): <name> <comment> <extra> <mtime> <os>
   c08.close <hdr x5> <xfl> <blocks>      blocks = comma-separated <payload length>:<DEFLATE length>, in queue order
       -> "<close result> <output length> <hasEOF> <member sizes>"    (Member.closeOutput / hasEOF)
          close result = ok | gzip | nobc | overflow
+  c08.open <hdr x5> <xfl> <blocks>       the same for a writer that was never closed (Member.render only):
+      -> "open <output length> <hasEOF> <member sizes>"
+  c08.abs <ops>          ops as in c01.write; the abstract script of the writer LTS (Hts.Model.WriterCompose.absScript, Model/WriterAbs.lean), in the
+      syntax of the c12.* commands:  w<k> | f0 | f1 | wt | c
+      -> "<abstract script>|<flush flags, one digit per Flush>|<seqBlocks of the abstract script>"
   c08.bound <n>  -> compressBound n
 -/
 import Hts.Drv.Util
 import Hts.Drv.C01
 import Hts.Model.Member
+import Hts.Model.WriterAbs
 namespace Hts.Drv.C08
 open Hts.Drv Hts.Model Hts.Model.Member
 
@@ -85,6 +91,25 @@ def handle (cmd : String) (args : List String) : Option String :=
     let (out, e) := closeOutput c h payloads
     let res := match e with | none => "ok" | some e => showErr e
     some s!"{res} {out.length} {boolStr (hasEOF out)} {C01.joinOr ((memberSizes (out.length + 1) out).map toString)}"
+  | "c08.open", [name, comment, extra, mtime, os, xfl, blocks] => do
+    let h ← parseHeader name comment extra mtime os
+    let prs ← (C01.splitList blocks).mapM parsePair
+    let idx := (List.range prs.length).zip prs
+    let tbl := idx.map (fun (i, (l, dl)) => (l, (if l = 0 then 0 else i % 256), List.replicate dl (0 : Byte)))
+    let c := tableCodec (← xfl.toNat?) tbl 0
+    let payloads := idx.map (fun (i, (l, _)) => List.replicate l (UInt8.ofNat (i % 256)))
+    let out := (render c h payloads).1
+    some s!"open {out.length} {boolStr (hasEOF out)} {C01.joinOr ((memberSizes (out.length + 1) out).map toString)}"
+  | "c08.abs", [ops] => do
+    let ops ← (C01.splitList ops).mapM C01.parseWOp
+    let abs := WriterCompose.absScript ops
+    let showOp : WriterLTS.Op → String
+      | .write k => s!"w{k}"
+      | .flush b => if b then "f1" else "f0"
+      | .wait => "wt"
+      | .close => "c"
+    let flags := String.join (abs.filterMap fun o => match o with | .flush b => some (if b then "1" else "0") | _ => none)
+    some s!"{C01.joinOr (abs.map showOp)}|{if flags.isEmpty then "-" else flags}|{WriterLTS.seqBlocks abs false}"
   | "c08.bound", [n] => do
     some (toString (compressBound (← n.toNat?)))
   | _, _ => none
